@@ -73,6 +73,22 @@ Section GROUPS.
     assert (Hin : In a (filter (s a) l)) by (apply filter_In; split; [exact Ha|apply Hr]).
     rewrite E in Hin. contradiction.
   Qed.
+
+  (* distinct groups have different keys *)
+  Lemma firsts_not_seen (s : A -> A -> bool) l : forall seen x, In x (firsts s seen l) -> existsb (s x) seen = false.
+  Proof.
+    induction l as [|a r IH]; intros seen x H; cbn [firsts] in H; [contradiction|].
+    destruct (existsb (s a) seen) eqn:E.
+    - now apply IH.
+    - destruct H as [<-|H]; [exact E|]. apply IH in H. cbn [existsb] in H. apply orb_false_iff in H. tauto.
+  Qed.
+  Lemma firsts_distinct (s : A -> A -> bool) l : forall seen,
+    ForallOrdPairs (fun a b => s b a = false) (firsts s seen l).
+  Proof.
+    induction l as [|a r IH]; intros seen; cbn [firsts]; [constructor|].
+    destruct (existsb (s a) seen); [apply IH|]. constructor; [|apply IH].
+    apply Forall_forall. intros x Hx. apply firsts_not_seen in Hx. cbn [existsb] in Hx. apply orb_false_iff in Hx. tauto.
+  Qed.
 End GROUPS.
 
 Section GROUP_PULL.
@@ -556,6 +572,53 @@ Section STAGES.
     consistent (sem_agg varpop stddevpop f rows) /\ nonneg (sem_agg varpop stddevpop f rows).
   Proof.
     intros Hc Hn. split; [apply (consistent_from rows)|apply (nonneg_from rows)]; try assumption; intros r Hr; now apply (sem_agg_from f).
+  Qed.
+
+  (* output series are identified by exactly the grouped label set: one row per (label set, timestamp), and the label set
+     of a row is the by/without image of the label set of an input row *)
+  Lemma fop_map {X Y} (f : X -> Y) (R : X -> X -> Prop) (Q : Y -> Y -> Prop) (l : list X) :
+    (forall a b, In a l -> In b l -> R a b -> Q (f a) (f b)) -> ForallOrdPairs R l -> ForallOrdPairs Q (map f l).
+  Proof.
+    intros H Hl. induction Hl as [|a l Ha Hl IH]; cbn [map]; constructor.
+    - apply Forall_forall. intros y Hy. apply in_map_iff in Hy. destruct Hy as [b [<- Hb]].
+      apply H; [now left|now right|]. rewrite Forall_forall in Ha. now apply Ha.
+    - apply IH. intros x y Hx Hy. apply H; now right.
+  Qed.
+  Lemma fop_nodup {X} (l : list X) : ForallOrdPairs (fun a b => a <> b) l -> NoDup l.
+  Proof.
+    intros H. induction H as [|a l Ha Hl IH]; constructor; [|exact IH].
+    intros Hin. rewrite Forall_forall in Ha. now apply (Ha a Hin).
+  Qed.
+  Theorem agg_series_identity f g rows :
+    consistent rows ->
+    NoDup (map (fun r => (r_labels r, r_ts r)) (sem_agg varpop stddevpop f (maybe_bw g rows))) /\
+    forall r, In r (sem_agg varpop stddevpop f (maybe_bw g rows)) -> exists h, In h rows /\ r_labels r = regroup g (r_labels h) /\ r_ts r = r_ts h.
+  Proof.
+    intros Hc0.
+    assert (Hc : consistent (maybe_bw g rows)) by (destruct g; cbn [maybe_bw]; [apply sem_bw_consistent|exact Hc0]).
+    split.
+    - apply fop_nodup. unfold sem_agg, group_by. rewrite !map_map.
+      eapply fop_map; [|apply (firsts_distinct same_fp_ts (maybe_bw g rows) [])].
+      intros a b Ha Hb Hs. cbn beta. intros E.
+      apply firsts_in in Ha. apply firsts_in in Hb.
+      assert (Ha' : In a (filter (same_fp_ts a) (maybe_bw g rows))) by (apply filter_In; split; [exact Ha|apply same_fp_ts_refl]).
+      assert (Hb' : In b (filter (same_fp_ts b) (maybe_bw g rows))) by (apply filter_In; split; [exact Hb|apply same_fp_ts_refl]).
+      destruct (filter (same_fp_ts a) (maybe_bw g rows)) as [|ha ga] eqn:Ea; [contradiction|].
+      destruct (filter (same_fp_ts b) (maybe_bw g rows)) as [|hb gb] eqn:Eb; [contradiction|].
+      cbn in E. inversion E as [[El Et]].
+      assert (Hha : In ha (maybe_bw g rows) /\ same_fp_ts a ha = true) by (apply filter_In; rewrite Ea; now left).
+      assert (Hhb : In hb (maybe_bw g rows) /\ same_fp_ts b hb = true) by (apply filter_In; rewrite Eb; now left).
+      destruct Hha as [Hha1 Hha2]. destruct Hhb as [Hhb1 Hhb2].
+      unfold same_fp_ts in *. apply andb_true_iff in Hha2. apply andb_true_iff in Hhb2.
+      destruct Hha2 as [F1 T1]. destruct Hhb2 as [F2 T2].
+      apply N.eqb_eq in F1. apply N.eqb_eq in F2. apply Z.eqb_eq in T1. apply Z.eqb_eq in T2.
+      apply (Hc ha hb Hha1 Hhb1) in El.
+      assert (X : N.eqb (r_fp b) (r_fp a) && Z.eqb (r_ts b) (r_ts a) = true) by (apply andb_true_iff; split; [apply N.eqb_eq|apply Z.eqb_eq]; congruence).
+      congruence.
+    - intros r Hr. destruct (sem_agg_from f _ r Hr) as [h [Hh [_ [El Et]]]].
+      destruct g as [b|]; cbn [maybe_bw regroup] in *.
+      + unfold sem_bw in Hh. apply in_map_iff in Hh. destruct Hh as [x [<- Hx]]. exists x. cbn in *. auto.
+      + exists h. auto.
   Qed.
 
   (* --- comparison --- *)
